@@ -9,7 +9,7 @@ use simple_dns::*;
 use simple_mdns::verif::{build_reply, DomainResourceFilter, ResourceRecordManager};
 use std::time::{Duration, Instant};
 
-const LABELS: [&[u8]; 10] = [b"foo", b"bar", b"foobar", b"_my", b"_mysrv", b"local", b"a", b"b", b"aaaaaaaaaaaaaaaaaaaa", b"office"];
+const LABELS: [&[u8]; 13] = [b"foo", b"bar", b"foobar", b"_my", b"_mysrv", b"local", b"a", b"b", b"aaaaaaaaaaaaaaaaaaaa", b"office", b"Foo", b"BAR", b"A"];
 
 fn rand_name(r: &mut Rng) -> Vec<Vec<u8>> {
     let k = r.range(0, 4) as usize;
@@ -21,7 +21,10 @@ fn rand_name(r: &mut Rng) -> Vec<Vec<u8>> {
 fn rand_rr(r: &mut Rng, names: &[Vec<Vec<u8>>]) -> ResourceRecord<'static> {
     let name = mk_name(&r.pick(names)[..]);
     let class = if r.chance(1, 8) { CLASS::CH } else { CLASS::IN };
-    let rdata = match r.below(6) {
+    let rdata = match r.below(9) {
+        6 => RData::CNAME(CNAME(mk_name(&r.pick(names)[..]))),
+        7 => RData::NS(NS(mk_name(&r.pick(names)[..]))),
+        8 => RData::HINFO(HINFO { cpu: crate::gen::mk_cs(b"c"), os: crate::gen::mk_cs(b"o") }),
         0 | 1 => RData::A(A { address: r.below(3) as u32 }),
         2 => RData::AAAA(AAAA { address: r.below(2) as u128 }),
         3 => RData::SRV(SRV { priority: 0, weight: 0, port: 80 + r.below(2) as u16, target: mk_name(&r.pick(names)[..]) }),
@@ -51,6 +54,12 @@ pub fn c13(tier: &str, seed: u64) -> Vec<Case> {
     for it in 0..n {
         // a small universe of names per history so that exact, parent and colliding names all occur
         let mut names: Vec<Vec<Vec<u8>>> = (0..r.range(2, 5)).map(|_| rand_name(&mut r)).collect();
+        if it % 4 == 1 {
+            // names equal up to letter case are different names
+            names.push(vec![b"Foo".to_vec(), b"local".to_vec()]);
+            names.push(vec![b"foo".to_vec(), b"local".to_vec()]);
+            names.push(vec![b"FOO".to_vec(), b"LOCAL".to_vec()]);
+        }
         if it % 3 == 0 {
             names.push(vec![b"foo".to_vec(), b"bar".to_vec(), b"local".to_vec()]);
             names.push(vec![b"foobar".to_vec(), b"local".to_vec()]);
@@ -66,7 +75,7 @@ pub fn c13(tier: &str, seed: u64) -> Vec<Case> {
         // the query
         let mut q = Packet::new_query(r.next() as u16);
         for _ in 0..r.range(0, 2) {
-            let qt = match r.below(8) { 0 | 7 => QTYPE::ANY, 1 => QTYPE::MAILB, 2 => QTYPE::TYPE(TYPE::SRV), 3 => QTYPE::TYPE(TYPE::AAAA), 4 => QTYPE::TYPE(TYPE::PTR), 5 => QTYPE::TYPE(TYPE::TXT), _ => QTYPE::TYPE(TYPE::A) };
+            let qt = match r.below(10) { 0 | 7 => QTYPE::ANY, 8 => QTYPE::TYPE(TYPE::CNAME), 9 => QTYPE::TYPE(TYPE::NS), 1 => QTYPE::MAILB, 2 => QTYPE::TYPE(TYPE::SRV), 3 => QTYPE::TYPE(TYPE::AAAA), 4 => QTYPE::TYPE(TYPE::PTR), 5 => QTYPE::TYPE(TYPE::TXT), _ => QTYPE::TYPE(TYPE::A) };
             let qc = match r.below(6) { 0 => QCLASS::ANY, 1 => QCLASS::CLASS(CLASS::CH), _ => QCLASS::CLASS(CLASS::IN) };
             let qn = if !pool.is_empty() && r.chance(2, 3) { r.pick(&pool).name.clone() } else { mk_name(&r.pick(&names)[..]) };
             q.questions.push(Question::new(qn, qt, qc, r.chance(1, 4)));
